@@ -1,5 +1,417 @@
 package main
 
-import . "vh/vhlib"
+// C11 part 3: an in-process MOSN (real connHandler, listeners, proxy, bolt codec, cluster manager) in front of a scripted
+// bolt upstream.  One listener per scenario; the client sends a bolt request (optionally in two halves), the upstream
+// answers after a scripted delay (optionally in two halves); GracefulStopListener - the per-listener form of what SIGTERM
+// triggers - is invoked at an offset that sweeps the request's lifetime.  Observed: when Shutdown returned ("exit": the
+// stage manager closes the application right after), when the reply reached the client.
 
-func c11Server(run *Run) int { return 0 }
+import (
+	"encoding/binary"
+	"encoding/json"
+	"fmt"
+	"io"
+	"net"
+	"os"
+	"sync"
+	"time"
+
+	"mosn.io/api"
+	v2 "mosn.io/mosn/pkg/config/v2"
+	_ "mosn.io/mosn/pkg/filter/network/proxy"
+	"mosn.io/mosn/pkg/mosn"
+	"mosn.io/mosn/pkg/protocol/xprotocol"
+	"mosn.io/mosn/pkg/protocol/xprotocol/bolt"
+	"mosn.io/mosn/pkg/server"
+	"mosn.io/mosn/pkg/types"
+	xstream "mosn.io/mosn/pkg/stream/xprotocol"
+	_ "mosn.io/mosn/pkg/upstream/cluster"
+
+	. "vh/vhlib"
+)
+
+// ---- raw bolt v1 frames ----
+func boltRequest(id uint32, content []byte) []byte {
+	hdr := kv("service", "vh")
+	b := make([]byte, 22, 22+len(hdr)+len(content))
+	b[0], b[1] = 1, 1 // protocol code, request
+	binary.BigEndian.PutUint16(b[2:], 1)
+	b[4] = 1
+	binary.BigEndian.PutUint32(b[5:], id)
+	b[9] = 1
+	binary.BigEndian.PutUint32(b[10:], 10000) // timeout ms
+	binary.BigEndian.PutUint16(b[14:], 0)
+	binary.BigEndian.PutUint16(b[16:], uint16(len(hdr)))
+	binary.BigEndian.PutUint32(b[18:], uint32(len(content)))
+	b = append(b, hdr...)
+	return append(b, content...)
+}
+
+func boltResponse(id uint32, content []byte) []byte {
+	b := make([]byte, 20, 20+len(content))
+	b[0], b[1] = 1, 0
+	binary.BigEndian.PutUint16(b[2:], 2)
+	b[4] = 1
+	binary.BigEndian.PutUint32(b[5:], id)
+	b[9] = 1
+	binary.BigEndian.PutUint16(b[10:], 0) // status success
+	binary.BigEndian.PutUint16(b[12:], 0)
+	binary.BigEndian.PutUint16(b[14:], 0)
+	binary.BigEndian.PutUint32(b[16:], uint32(len(content)))
+	return append(b, content...)
+}
+
+func kv(k, v string) []byte {
+	b := make([]byte, 0, 8+len(k)+len(v))
+	l := make([]byte, 4)
+	binary.BigEndian.PutUint32(l, uint32(len(k)))
+	b = append(append(b, l...), k...)
+	binary.BigEndian.PutUint32(l, uint32(len(v)))
+	return append(append(b, l...), v...)
+}
+
+// readBoltFrame reads one frame; returns cmd type (1 request, 0 response), cmd code, request id, content.
+func readBoltFrame(c net.Conn) (typ byte, code uint16, id uint32, content []byte, err error) {
+	h := make([]byte, 20)
+	if _, err = io.ReadFull(c, h); err != nil {
+		return
+	}
+	typ = h[1]
+	code = binary.BigEndian.Uint16(h[2:])
+	id = binary.BigEndian.Uint32(h[5:])
+	var cl, hl, bl int
+	if typ == 0 { // response: 20 byte header
+		cl, hl, bl = int(binary.BigEndian.Uint16(h[12:])), int(binary.BigEndian.Uint16(h[14:])), int(binary.BigEndian.Uint32(h[16:]))
+	} else { // request: 22 byte header
+		h2 := make([]byte, 2)
+		if _, err = io.ReadFull(c, h2); err != nil {
+			return
+		}
+		h = append(h, h2...)
+		cl, hl, bl = int(binary.BigEndian.Uint16(h[14:])), int(binary.BigEndian.Uint16(h[16:])), int(binary.BigEndian.Uint32(h[18:]))
+	}
+	rest := make([]byte, cl+hl+bl)
+	if _, err = io.ReadFull(c, rest); err != nil {
+		return
+	}
+	content = rest[cl+hl:]
+	return
+}
+
+// scripted upstream: the request content is JSON {"up":ms,"gap":ms}: wait `up`, write the first half of the response,
+// wait `gap`, write the rest.
+type script struct {
+	Up  int `json:"up"`
+	Gap int `json:"gap"`
+}
+
+func startUpstream() (string, func()) {
+	ln, err := net.Listen("tcp", "127.0.0.1:0")
+	if err != nil {
+		panic(err)
+	}
+	go func() {
+		for {
+			c, err := ln.Accept()
+			if err != nil {
+				return
+			}
+			go func(c net.Conn) {
+				defer c.Close()
+				var wmu sync.Mutex
+				for {
+					typ, code, id, content, err := readBoltFrame(c)
+					if err != nil {
+						return
+					}
+					if typ != 1 || code != 1 {
+						continue // heartbeat etc.
+					}
+					var sc script
+					json.Unmarshal(content, &sc)
+					go func() {
+						time.Sleep(time.Duration(sc.Up) * time.Millisecond)
+						resp := boltResponse(id, []byte("ok"))
+						wmu.Lock()
+						defer wmu.Unlock()
+						if sc.Gap > 0 {
+							c.Write(resp[:11])
+							time.Sleep(time.Duration(sc.Gap) * time.Millisecond)
+							c.Write(resp[11:])
+						} else {
+							c.Write(resp)
+						}
+					}()
+				}
+			}(c)
+		}
+	}()
+	return ln.Addr().String(), func() { ln.Close() }
+}
+
+func toMap(v interface{}) map[string]interface{} {
+	m := map[string]interface{}{}
+	b, _ := json.Marshal(v)
+	json.Unmarshal(b, &m)
+	return m
+}
+
+type reqPlan struct {
+	T0   int `json:"t0"`   // ms after the scenario origin at which the first half of the request is sent
+	Recv int `json:"recv"` // gap between the two halves of the request (0: sent at once)
+	Up   int `json:"up"`   // upstream delay
+	Gap  int `json:"gap"`  // gap between the two halves of the upstream response
+	// observed
+	ReplyAt int  `json:"reply_at"` // ms after origin at which the client had the whole reply (-1: none)
+	OK      bool `json:"ok"`
+}
+
+type scenario struct {
+	Name   string     `json:"listener"`
+	Addr   string     `json:"-"`
+	Reqs   []*reqPlan `json:"requests"`
+	Signal int        `json:"signal_at"`
+	Drain  int        `json:"drain_ms"`
+	ExitAt int        `json:"shutdown_returned_at"`
+	AccAft bool       `json:"accepted_after_shutdown"`
+	Err    string     `json:"harness_error,omitempty"`
+}
+
+func c11Server(run *Run, dir string) int {
+	r := run.R
+	drain := 300
+	server.SetDrainTime(time.Duration(drain) * time.Millisecond)
+	upAddr, closeUp := startUpstream()
+	defer closeUp()
+
+	nsc := run.N(18, 90)
+	var scs []*scenario
+	var listeners []v2.Listener
+	routerName := "vh-router"
+	var rc *v2.RouterConfiguration
+	xprotocol.RegisterXProtocolAction(xstream.NewConnPool, xstream.NewStreamFactory, func(codec api.XProtocolCodec) {})
+	if err := xprotocol.RegisterXProtocolCodec(&bolt.XCodec{}); err != nil {
+		fmt.Println("bolt codec registration failed:", err)
+		return 2
+	}
+	for i := 0; i < nsc; i++ {
+		sc := &scenario{Name: fmt.Sprintf("vh-l%d", i), Addr: fmt.Sprintf("127.0.0.1:%d", freePort()), Drain: drain}
+		nreq := 1
+		if r.Pct(30) {
+			nreq = 2
+		}
+		for k := 0; k < nreq; k++ {
+			p := &reqPlan{T0: k * r.Pick([]int{20, 60, 120}), Recv: r.Pick([]int{0, 0, 80, 140}), Up: r.Pick([]int{60, 120, 200, 260}), Gap: r.Pick([]int{0, 0, 70})}
+			if r.Pct(12) {
+				p.Up = 700 // does not fit into the drain time
+			}
+			sc.Reqs = append(sc.Reqs, p)
+		}
+		// signal offset: sweep the lifetime of the first request, sometimes after everything is done
+		p := sc.Reqs[0]
+		done := p.Recv + p.Up + p.Gap
+		switch i % 6 {
+		case 0:
+			sc.Signal = r.Intn(max(p.Recv, 1)) // while the request is being received (if it is sent in halves)
+		case 1, 2:
+			sc.Signal = p.Recv + 10 + r.Intn(max(p.Up-20, 1)) // waiting for the upstream
+		case 3:
+			sc.Signal = p.Recv + p.Up + r.Intn(max(p.Gap, 1)) // reply half written by the upstream
+		case 4:
+			sc.Signal = done + 60 + r.Intn(60) // nothing in flight
+		default:
+			sc.Signal = r.Intn(done + 40)
+		}
+		scs = append(scs, sc)
+		proxy := &v2.Proxy{DownstreamProtocol: "bolt", UpstreamProtocol: "bolt", RouterConfigName: routerName}
+		rc = &v2.RouterConfiguration{RouterConfigurationConfig: v2.RouterConfigurationConfig{RouterConfigName: routerName},
+			VirtualHosts: []v2.VirtualHost{{Name: "vh", Domains: []string{"*"}, Routers: []v2.Router{{RouterConfig: v2.RouterConfig{
+				Match: v2.RouterMatch{Headers: []v2.HeaderMatcher{{Name: "service", Value: ".*", Regex: true}}},
+				Route: v2.RouteAction{RouterActionConfig: v2.RouterActionConfig{ClusterName: "vh-up"}}}}}}}}
+		listeners = append(listeners, v2.Listener{ListenerConfig: v2.ListenerConfig{Name: sc.Name, AddrConfig: sc.Addr, BindToPort: true, Network: "tcp",
+			FilterChains: []v2.FilterChain{{FilterChainConfig: v2.FilterChainConfig{Filters: []v2.Filter{{Type: "proxy", Config: toMap(proxy)}}}}}}})
+	}
+	logPath, logLevel := "/dev/null", "FATAL"
+	if os.Getenv("VH_LOG") != "" {
+		logPath, logLevel = "stdout", "DEBUG"
+	}
+	cfg := &v2.MOSNConfig{
+		Servers: []v2.ServerConfig{{DefaultLogPath: logPath, DefaultLogLevel: logLevel, Listeners: listeners, Routers: []*v2.RouterConfiguration{rc}}},
+		ClusterManager: v2.ClusterManagerConfig{Clusters: []v2.Cluster{{Name: "vh-up", ClusterType: v2.SIMPLE_CLUSTER, LbType: v2.LB_ROUNDROBIN,
+			MaxRequestPerConn: 1024, ConnBufferLimitBytes: 16 * 1024, Hosts: []v2.Host{{HostConfig: v2.HostConfig{Address: upAddr}}}}}},
+	}
+	cfg.DisableUpgrade = true // no reconfigure listener: the two-process part is out of scope here
+	cfg.UDSDir = dir
+	mosn.DefaultInitStage(cfg)
+	// keep every domain socket / pid / log path of this in-process MOSN inside the scratch directory
+	types.MosnBasePath, types.MosnConfigPath, types.MosnUDSPath, types.MosnLogBasePath = dir, dir, dir, dir
+	types.MosnLogDefaultPath, types.MosnPidDefaultFileName = dir+"/mosn.log", dir+"/mosn.pid"
+	types.ReconfigureDomainSocket, types.TransferConnDomainSocket = dir+"/reconfig.sock", dir+"/conn.sock"
+	types.TransferStatsDomainSocket, types.TransferListenDomainSocket = dir+"/stats.sock", dir+"/listen.sock"
+	types.TransferMosnconfigDomainSocket = dir + "/mosnconfig.sock"
+	m := mosn.NewMosn()
+	m.Init(cfg)
+	mosn.DefaultPreStartStage(m)
+	go m.Start()
+	// wait until the first and the last listener accept
+	for _, sc := range []*scenario{scs[0], scs[len(scs)-1]} {
+		okc := false
+		for w := 0; w < 200 && !okc; w++ {
+			if c, err := net.DialTimeout("tcp", sc.Addr, 100*time.Millisecond); err == nil {
+				c.Close()
+				okc = true
+			} else {
+				time.Sleep(20 * time.Millisecond)
+			}
+		}
+		if !okc {
+			fmt.Println("in-process MOSN did not start listening on", sc.Addr)
+			return 2
+		}
+	}
+	handler := server.GetServer().Handler()
+
+	// warm-up request on a listener of its own?  the first scenario's connection establishes the upstream connection;
+	// give every scenario a warm-up round trip on its own listener so that connection set-up is not part of the timings
+	runScenario := func(sc *scenario) {
+		conns := make([]net.Conn, len(sc.Reqs))
+		for k := range sc.Reqs {
+			c, err := net.DialTimeout("tcp", sc.Addr, time.Second)
+			if err != nil {
+				sc.Err = "dial: " + err.Error()
+				return
+			}
+			conns[k] = c
+			defer c.Close()
+			// warm-up
+			body, _ := json.Marshal(script{Up: 0})
+			c.SetDeadline(time.Now().Add(3 * time.Second))
+			c.Write(boltRequest(uint32(1000+k), body))
+			for {
+				typ, _, id, _, err := readBoltFrame(c)
+				if err != nil {
+					sc.Err = "warm-up: " + err.Error()
+					return
+				}
+				if typ == 0 && id == uint32(1000+k) {
+					break
+				}
+			}
+		}
+		time.Sleep(30 * time.Millisecond)
+		origin := time.Now()
+		ms := func() int { return int(time.Since(origin) / time.Millisecond) }
+		var wg sync.WaitGroup
+		for k, p := range sc.Reqs {
+			wg.Add(1)
+			go func(k int, p *reqPlan) {
+				defer wg.Done()
+				c := conns[k]
+				p.ReplyAt = -1
+				time.Sleep(time.Until(origin.Add(time.Duration(p.T0) * time.Millisecond)))
+				body, _ := json.Marshal(script{Up: p.Up, Gap: p.Gap})
+				frame := boltRequest(uint32(7+k), body)
+				c.SetDeadline(time.Now().Add(4 * time.Second))
+				if p.Recv > 0 {
+					c.Write(frame[:30])
+					time.Sleep(time.Duration(p.Recv) * time.Millisecond)
+					c.Write(frame[30:])
+				} else {
+					c.Write(frame)
+				}
+				for {
+					typ, _, id, content, err := readBoltFrame(c)
+					if err != nil {
+						return
+					}
+					if typ == 0 && id == uint32(7+k) {
+						p.ReplyAt = ms()
+						p.OK = string(content) == "ok"
+						return
+					}
+				}
+			}(k, p)
+		}
+		time.Sleep(time.Until(origin.Add(time.Duration(sc.Signal) * time.Millisecond)))
+		handler.GracefulStopListener(nil, sc.Name)
+		sc.ExitAt = ms()
+		// no new connection after the stop
+		if c, err := net.DialTimeout("tcp", sc.Addr, 150*time.Millisecond); err == nil {
+			sc.AccAft = true
+			c.Close()
+		}
+		wg.Wait()
+	}
+	// scenarios in parallel batches (each has its own listener, connections and gauge)
+	batch := 6
+	for i := 0; i < len(scs); i += batch {
+		var wg sync.WaitGroup
+		for j := i; j < i+batch && j < len(scs); j++ {
+			wg.Add(1)
+			go func(sc *scenario) { defer wg.Done(); runScenario(sc) }(scs[j])
+		}
+		wg.Wait()
+	}
+
+	// ---- evaluate ----
+	sh := run.NewShard(c11Header, "drain_case", "drain_mismatches")
+	const tol = 90
+	for _, sc := range scs {
+		if sc.Err != "" {
+			fmt.Println("scenario could not run:", sc.Name, sc.Err)
+			return 2
+		}
+		var rs []string
+		phase := "idle"
+		for k, p := range sc.Reqs {
+			rs = append(rs, fmt.Sprintf("(mkR %d%%nat %d%%nat %d%%nat %d%%nat)", p.T0, p.Recv, p.Up, p.Gap))
+			decoded, done := p.T0+p.Recv, p.T0+p.Recv+p.Up+p.Gap
+			ph := "idle"
+			switch {
+			case sc.Signal >= p.T0 && sc.Signal < decoded:
+				ph = "receiving"
+			case sc.Signal >= decoded && sc.Signal < decoded+p.Up:
+				ph = "waiting-upstream"
+			case sc.Signal >= decoded+p.Up && sc.Signal < done:
+				ph = "reply-half-written"
+			}
+			if k == 0 {
+				phase = ph
+			}
+			rep := map[string]interface{}{"part": "drain", "scenario": sc, "request": k, "phase_at_signal": ph}
+			// finder: an in-flight request whose remainder fits the drain time must be answered before Shutdown returns
+			margin := 40
+			if ph != "idle" && done-sc.Signal <= sc.Drain-margin {
+				switch {
+				case p.ReplyAt < 0 || !p.OK:
+					run.Fail("shutdown:in-flight-request-failed:"+ph, fmt.Sprintf("request %d (phase %s at the signal) got no reply", k, ph), rep)
+				case p.ReplyAt > sc.ExitAt+20 && ph == "receiving":
+					run.Fail("shutdown:returns-while-a-request-is-still-being-received", fmt.Sprintf("Shutdown returned at %d ms, the reply of the request that was half sent when the signal arrived (%d ms) came at %d ms; remaining %d ms <= drain %d ms", sc.ExitAt, sc.Signal, p.ReplyAt, done-sc.Signal, sc.Drain), rep)
+				case p.ReplyAt > sc.ExitAt+20:
+					run.Fail("shutdown:returns-before-in-flight-reply:"+ph, fmt.Sprintf("Shutdown returned at %d ms, before the reply (%d ms) of a request in phase %s at the signal (%d ms); remaining %d ms <= drain %d ms", sc.ExitAt, p.ReplyAt, ph, sc.Signal, done-sc.Signal, sc.Drain), rep)
+				}
+			}
+			if p.ReplyAt < 0 && done-sc.Signal <= sc.Drain-margin {
+				run.Fail("shutdown:request-lost", fmt.Sprintf("request %d got no reply", k), rep)
+			}
+		}
+		if sc.AccAft {
+			run.Fail("listener:accepted-after-graceful-stop", "a TCP connect succeeded after GracefulStopListener returned", map[string]interface{}{"part": "drain", "scenario": sc})
+		}
+		rep := map[string]interface{}{"part": "drain", "scenario": sc, "phase_at_signal": phase}
+		run.Count(fmt.Sprintf("drain|%v|%d", rs, sc.Signal), phase != "idle", "drain-phase="+phase, fmt.Sprintf("drain-requests=%d", len(sc.Reqs)))
+		sh.Add(fmt.Sprintf("(%s, %d%%nat, %d%%nat, 10%%nat, %d%%nat, %d%%nat)", CoqList(rs), sc.Signal, sc.Drain, tol, sc.ExitAt), rep)
+		if phase == "waiting-upstream" {
+			run.Sample(rep)
+		}
+	}
+	sh.Close()
+	return 0
+}
+
+func max(a, b int) int {
+	if a > b {
+		return a
+	}
+	return b
+}
